@@ -182,7 +182,9 @@ func runSoupQueries(c *hlib.Ctx, n int) {
 		}
 		var col model3d.MultiCollider
 		name := ""
-		switch c.Rng.Intn(3) {
+		switch c.Rng.Intn(4) {
+		case 3:
+			col, _, _, name = wideBVH3(c, "soup", append([]*model3d.Triangle{}, tris...))
 		case 0:
 			col = model3d.MeshToCollider(model3d.NewMeshTriangles(tris))
 			name = "MeshToCollider"
